@@ -4,6 +4,10 @@ import re
 ID = "C14"
 PROPS = "Props/C14.v"
 LEGS = [{"driver": "c14", "runner": ("ser", "Extract/ExtractSer.v", "Ser_model")}]
+# Props/SM2Premises.v (primality of the SM2 p and n by Pocklington certificates, SM2Facts from associativity alone, and the
+# corollaries for C01/C02/C03/C09/C13/C14) is built and re-checked by this check
+COQ_EXTRA_TARGETS = ["Props/SM2Premises.vo"]
+COQ_TIMEOUT = 3000
 
 TECHNIQUE = ("Coq proofs of the round trip of every codec gmsm owns over function-by-function models (all values), tied to /repo by running the "
              "extracted models on the same inputs and comparing every produced byte; PEM/PBKDF2/AES paths and loaders checked by the property predicate")
@@ -13,9 +17,12 @@ LEVEL_TEXT = ("Theorems in Coq (Props/C14.v), for ALL values: hexadecimal privat
               "D.Bytes() re-padded, trailing bytes ignored); PKIX public key; PKCS#8 password-protected with PBKDF2/AES-CBC abstract; the wrong-password "
               "disjunction; decision logic of X509KeyPair / GMX509KeyPairs / GMX509KeyPairsSingle accepts <=> key matches certificate(s), including which PEM "
               "block is used (first CERTIFICATE, first *PRIVATE KEY block, readable formats). "
+              "This check also builds Props/SM2Premises.v: sm2_p_is_prime, sm2_n_is_prime (Pocklington), SM2Facts_from_assoc (associativity of the affine "
+              "addition is the only mathematical premise left in C01/C02/C03/C09/C13; C14 has none). "
               "The models are extracted and compared byte for byte with /repo (hex strings, compressed points, DER of signatures, ciphertexts and PKCS#8).")
-LEVEL_NOTE = ("compress_decompress has the single mathematical premise prime p (proved for a toy field, a premise for the 256-bit SM2 prime - DESIGN "
-              "section 8); Fermat's little theorem is proved in Coq (Ser/Fermat.v, from mathcomp's fermat_little, transferred to Z). Modelled by contract, not verified: PEM armour, encoding/asn1's struct handling, "
+LEVEL_NOTE = ("compress_decompress has the single mathematical premise prime p, and that premise is DISCHARGED for the SM2 prime: coq/Prime proves "
+              "prime sm2_p and prime sm2_n by Pocklington certificates checked with vm_compute (C14_compress_decompress_unconditional in "
+              "Props/SM2Premises.v); Fermat's little theorem is proved in Coq (Ser/Fermat.v, from mathcomp's fermat_little, transferred to Z). Modelled by contract, not verified: PEM armour, encoding/asn1's struct handling, "
               "math/big, encoding/hex, elliptic.Marshal/Unmarshal, ScalarBaseMult (abstract), PBKDF2 and AES-CBC (abstract with dec after enc = id). "
               "wrong_password_outcome is the disjunction 'error or the garbage parses as a key'; that the second case does not happen is measured, not "
               "proved. For RSA/ECDSA pairs the loader theorem carries the side condition that an ECDSA key is on its certificate's curve (the code compares "
@@ -27,7 +34,7 @@ TRUSTED_BASE = [
     "python predicate of this module (independent re-statement of each round trip, Euler criterion for Decompress)",
 ]
 ASSUMPTIONS = [
-    "compress_decompress: prime p (premise of the theorem; p = 3 mod 4 and p <= 2^256 are computed for the SM2 prime)",
+    "compress_decompress: prime p as a premise of the general theorem; proved for the SM2 prime (Prime/SM2Primes.v), so no premise remains for SM2",
     "PBKDF2 / AES-CBC abstract: cbc_dec key iv (cbc_enc key iv m) = m on whole blocks, length preserving",
     "encoding/asn1 returns what was marshalled and ignores bytes after the outer structure (contract)",
     "loader theorems are about the decision logic over parsed key / certificate kinds; parsing itself is the contract of the parsers",
